@@ -368,6 +368,10 @@ def compare_tables(c: Cmp, res):
         label = f'{sub[1]}-{sub[0]}'
         t = dict(cols=T['corr']['cols'], rows=[label], cells=[x for x in T['corr']['cells'] if x[0] == label])
         compare_frame(c, 'get_correlation_results(subset)', res.get_correlation_results(subset=sub), t, exp)
+        # a subset is a SET of names: listing it in another order gives the same rows
+        compare_frame(c, 'get_correlation_results(subset listed in reverse)', res.get_correlation_results(subset=sub[::-1]), t, exp)
+    if exp.raw['K'] >= 2:
+        compare_frame(c, 'get_correlation_results(all names listed in reverse)', res.get_correlation_results(subset=list(exp.raw['names'])[::-1]), T['corr'], exp)
     g = res.get_general_statistics()
     c.same('get_general_statistics:labels', sorted(g.keys()), sorted(lab for lab, _ in T['general']))
     for lab, kind in T['general']:
